@@ -157,8 +157,9 @@ class Emitter:
                     parts = rest.split()
                     k = int(parts[0]); it = parts[2] if len(parts) >= 3 and parts[1] == "iter" else None
                     opts["loops"][k] = {"iter": it, "text": []}; cur = opts["loops"][k]["text"]
-                elif key in ("before", "after", "after-stmt"):
-                    a = {"where": key, "anchor": rest, "text": []}
+                elif re.match(r"(before|after|after-stmt)(\[\d+\])?$", key):
+                    mm = re.match(r"(before|after|after-stmt)(\[(\d+)\])?$", key)
+                    a = {"where": mm.group(1), "anchor": rest, "text": [], "nth": int(mm.group(3)) if mm.group(3) else None}
                     opts["anchors"].append(a); cur = a["text"]
                 else:
                     raise EmitError("unknown directive %r" % ln)
@@ -332,9 +333,14 @@ class Emitter:
         for a in opts["anchors"]:
             pat = [t.text for t in tokenize(a["anchor"])]
             hits = _find_subseq(toks, body_lo, end, pat)
-            if len(hits) != 1:
+            if a["nth"] is not None:
+                if len(hits) < a["nth"]:
+                    raise EmitError("lost anchor: %r[%d] in %s (%d matches)" % (a["anchor"], a["nth"], rec.qname, len(hits)))
+                h = hits[a["nth"] - 1]
+            elif len(hits) != 1:
                 raise EmitError("lost anchor: %r in %s (%d matches)" % (a["anchor"], rec.qname, len(hits)))
-            h = hits[0]
+            else:
+                h = hits[0]
             if a["where"] == "before":
                 off = toks[h].start
             elif a["where"] == "after":
